@@ -348,6 +348,31 @@ fn run(args: &Args, rep: &mut Report) {
         accs,
     );
 
+    // slot interactions: every assignment of a small colour set (incl. unset and equal
+    // colours in different slots) to the three slots
+    let reps: Vec<Option<MColor>> = vec![None, Some(MColor::Ansi(1)), Some(MColor::Ansi(9)), Some(MColor::Idx(1)), Some(MColor::Idx(141)), Some(MColor::Rgb(10, 20, 30)), Some(MColor::Rgb(0, 0, 0)), Some(MColor::Idx(0))];
+    let accs = rt::par(reps.len(), |w| {
+        let mut acc = Acc::new();
+        for bg in &reps {
+            for ul in &reps {
+                for e in [0u16, sgr::BOLD, sgr::UNDERLINE | sgr::ITALIC, 4095] {
+                    let m = MStyle { fg: reps[w], bg: *bg, ul: *ul, effects: e };
+                    acc.eval();
+                    if !m.is_plain() {
+                        acc.nontrivial_distinct();
+                    }
+                    if let Err(err) = rt::guarded(|| check_style(m).and_then(|_| check_components(m))) {
+                        acc.fail("slot-interactions", style_json(&m), err);
+                        return acc;
+                    }
+                }
+            }
+        }
+        acc.samples.push(json!({"fg": format!("{:?}", reps[w]), "bg/ul": "all 8 x 8", "effects": "4 sets"}));
+        acc
+    });
+    rep.add("slot-interactions", true, "8 x 8 x 8 colour assignments to (fg, bg, underline) incl. unset and equal colours x 4 effect sets", accs);
+
     // random full styles
     rep.add(
         "random-styles",
